@@ -444,6 +444,48 @@ pub fn cnf_strategies(_u: &Value) -> Vec<Strat> {
     vec![Strat::NoSd, Strat::Top, Strat::All, Strat::Custom(vec!["$.cnf".into()]), Strat::Custom(vec!["$.cnf.jwk".into()]), Strat::Custom(vec!["$.a".into()])]
 }
 
+/// iat is an ordinary, unconstrained claim in the C01 domain (only iss and exp are pinned): every value shape.
+pub fn iat_trees() -> Vec<Value> {
+    let vals = [json!(0), json!(4_100_000_000u64), json!(1_700_000_000_000u64), json!(-5), json!(1.5), json!("2024-01-01"), Value::Null, json!([1]), json!({"a": 1}), json!(true), json!(u64::MAX)];
+    let mut out = vec![];
+    for v in vals {
+        for pos in 0..3 {
+            out.push(match pos {
+                0 => json!({"iat": v, "iss": gen::ISS, "exp": gen::EXP, "a": 1}),
+                1 => json!({"iss": gen::ISS, "a": {"b": [1]}, "iat": v, "exp": gen::EXP}),
+                _ => json!({"iss": gen::ISS, "exp": gen::EXP, "a": [{"iat": v}], "iat": 1_700_000_000u64}),
+            });
+        }
+    }
+    out
+}
+
+/// String lengths swept across power-of-two boundaries: a hidden and a visible claim whose length makes
+/// the disclosure text / the payload JSON hit every size from B-90 to B+10.
+pub fn length_sweep_trees() -> Vec<Value> {
+    let mut out = vec![];
+    for b in [256usize, 1024, 4096, 16384] {
+        for l in (b - 90)..(b + 10) {
+            out.push(json!({"iss": gen::ISS, "exp": gen::EXP, "a": "x".repeat(l)}));
+        }
+    }
+    out
+}
+pub fn sweep_strategies(_u: &Value) -> Vec<Strat> {
+    vec![Strat::NoSd, Strat::Top]
+}
+
+/// More digests in one credential than any everyday cap: 1100 objects, each with a hidden member.
+pub fn very_wide_trees() -> Vec<Value> {
+    vec![json!({"iss": gen::ISS, "exp": gen::EXP, "a": Value::Array((0..1100).map(|i| json!({ "k": i })).collect())})]
+}
+pub fn very_wide_strategies(_u: &Value) -> Vec<Strat> {
+    vec![Strat::All, Strat::Top]
+}
+pub fn all_or_nothing(u: &Value) -> Vec<Map<String, Value>> {
+    vec![gen::select_all(u), Map::new()]
+}
+
 /// Single nested path of depth k; bit i of `pattern` says whether level i is an array (1) or object (0).
 pub fn chain(k: usize, pattern: u64) -> Value {
     let mut v = json!(7);
